@@ -69,6 +69,15 @@ func (r *Ref) fail(n *N, format string, a ...interface{}) *EvalError {
 	return &EvalError{Node: n, Msg: fmt.Sprintf(format, a...), inClosure: r.closureMark()}
 }
 
+// outside reports that the evaluation left the fragment the reference model
+// defines (only shrinking produces such programs). Like a cost-bound overrun
+// it means "no verdict": TooBig is set and no engine compares such a run with
+// the library.
+func (r *Ref) outside(n *N, format string, a ...interface{}) *EvalError {
+	r.TooBig = true
+	return r.fail(n, "outside the fragment: "+format, a...)
+}
+
 func (r *Ref) closureMark() string {
 	if len(r.stack) > 0 {
 		return fmt.Sprintf("depth%d", len(r.stack))
@@ -100,7 +109,7 @@ func (r *Ref) Eval(n *N) (v interface{}, err *EvalError) {
 		return r.member(n, n.S)
 	case "ptr":
 		if len(r.stack) == 0 {
-			return nil, r.fail(n, "# outside closure")
+			return nil, r.outside(n, "# outside closure")
 		}
 		return r.stack[len(r.stack)-1], nil
 	case "prop":
@@ -146,7 +155,7 @@ func (r *Ref) Eval(n *N) (v interface{}, err *EvalError) {
 		case "+":
 			return a, nil
 		}
-		return nil, r.fail(n, "unknown unary %s", n.S)
+		return nil, r.outside(n, "unknown unary %s", n.S)
 	case "bin":
 		return r.bin(n)
 	case "cond":
@@ -203,7 +212,7 @@ func (r *Ref) Eval(n *N) (v interface{}, err *EvalError) {
 	case "bi":
 		return r.builtin(n)
 	}
-	return nil, r.fail(n, "unknown node kind %s", n.K)
+	return nil, r.outside(n, "unknown node kind %s", n.K)
 }
 
 func (r *Ref) evalArgs(ns []*N) ([]interface{}, *EvalError) {
@@ -264,7 +273,7 @@ func (r *Ref) member(n *N, name string) (interface{}, *EvalError) {
 	case "Objs":
 		return e.Objs, nil
 	}
-	return nil, r.fail(n, "unknown member %s", name)
+	return nil, r.outside(n, "unknown member %s", name)
 }
 
 func (r *Ref) prop(n *N, recv interface{}, name string, nilsafe bool) (interface{}, *EvalError) {
@@ -438,7 +447,7 @@ func (r *Ref) call(n *N, name string, args []interface{}) (interface{}, *EvalErr
 		}
 		return r.guard(n, func() interface{} { return e.C64(a) })
 	}
-	return nil, r.fail(n, "unknown function %s", name)
+	return nil, r.outside(n, "unknown function %s", name)
 }
 
 // isLiteralArith: integer literals combined with unary +/- and + - * /.
@@ -560,7 +569,7 @@ func (r *Ref) bin(n *N) (interface{}, *EvalError) {
 	case "==", "!=":
 		eq, ok := scalarEqual(a, b)
 		if !ok {
-			return nil, r.fail(n, "equality outside the fragment: %T %T", a, b)
+			return nil, r.outside(n, "equality outside the fragment: %T %T", a, b)
 		}
 		if op == "!=" {
 			return !eq, nil
@@ -626,7 +635,7 @@ func (r *Ref) bin(n *N) (interface{}, *EvalError) {
 		}
 		return re.MatchString(x), nil
 	}
-	return nil, r.fail(n, "unknown operator %s", op)
+	return nil, r.outside(n, "unknown operator %s", op)
 }
 
 // scalarEqual defines equality on the fragment's scalar values (int, bool,
@@ -703,7 +712,7 @@ func (r *Ref) in(n *N, needle, hay interface{}) (bool, *EvalError) {
 		for _, e := range seq {
 			eq, ok := scalarEqual(needle, e)
 			if !ok {
-				return false, r.fail(n, "membership outside the fragment")
+				return false, r.outside(n, "membership outside the fragment")
 			}
 			if eq {
 				return true, nil
@@ -935,5 +944,5 @@ func (r *Ref) builtin(n *N) (interface{}, *EvalError) {
 		}
 		return out, nil
 	}
-	return nil, r.fail(n, "unknown builtin %s", n.S)
+	return nil, r.outside(n, "unknown builtin %s", n.S)
 }
